@@ -409,7 +409,7 @@ def add_calls(rng, prog, n=3, forms=False, with_ok=False, internal_targets=("__l
             elif it[0] == "class" and PLAIN.match(it[1]):
                 collect(it[2], classes + [it[1]])
     collect(prog, [])
-    add_targets = [t[0] for t in targets if not t[0].split(".")[-1].startswith("E")] + list(internal_targets)
+    add_targets = [t[0] for t in targets] + list(internal_targets)       # (round 3: zero-command functions are @add targets too)
 
     def form(spelling):
         return spelling if not forms or rng.random() < 0.4 else (rng.choice(["call", "sched", "exec"] + (["with"] if with_ok else [])), spelling)
@@ -707,6 +707,11 @@ COLLIDING = [
                            E("E8", 8, deco="@root", body="nested", inner=[F("inner", 9)]), E("E10", 10, deco="@add(__load__)"))]),
     ("empty-decorated-before-target", [E("E1", 1, deco="@add(later.t)"), C("later", F("t", 2))]),
     ("decorated-marker", [F("t", 1), D("d2", 2, "@add(t)"), D("d3", 3, "@private"), D("d4", 4, "@root"), C("K", D("d5", 5, "@add(K.d6)"), D("d6", 6, "@root"))]),
+    # (round 3) several @add onto ONE target (zero-command / ordinary / tick / load): every generated call must be there
+    ("two-adds-empty-target", [E("E1", 1), D("d2", 2, "@add(E1)"), D("d3", 3, "@add(E1)"), C("K", D("d4", 4, "@add(E1)"), E("E5", 5, deco="@add(E1)"))]),
+    ("two-adds-target", [F("t", 1), D("d2", 2, "@add(t)"), C("K", D("d3", 3, "@add(t)")), D("d4", 4, "@add(__tick__)"), D("d5", 5, "@add(__tick__)"),
+                         D("d6", 6, "@add(__load__)"), D("d7", 7, "@add(__load__)"), E("__tick__", 8)]),
+    ("adds-before-empty-target", [D("d1", 1, "@add(late.E3)"), D("d2", 2, "@add(late.E3)"), C("late", E("E3", 3, body="comment"))]),
     ("empty-then-same", [E("foo", 1), F("foo", 2)]),
     ("same-then-empty", [F("foo", 1), E("foo", 2)]),
     ("empty-twice", [E("foo", 1), E("foo", 2, body="comment")]),
@@ -778,6 +783,11 @@ LAZY_SHAPES = [
                            C("game", F("helper", 4), F("made", 5), FC("run", 6, [("lazy", "lib.tpl"), ("ifrun", "this.helper")]))]),
     ("lazy-block-forms", [C("lib", L("tpl", 1, [("ifrun", "this.helper"), ("arrow1", "this.helper"), ("exec", "this.helper")]), F("helper", 2)),
                           C("game", F("helper", 3), FC("run", 4, [("arrow1", "this.helper"), ("lazy", "lib.tpl"), ("ifrun", "this.helper")]))]),
+    # (round 3 finding, fixes/C08-pending-if-before-nested-declaration.patch) an `if` without `else` directly before a nested declaration:
+    # the pending if-chain was emitted into the NESTED function's file
+    ("if-before-nested-declaration", [F("helper", 1), FC("outer", 2, ["helper", ("ifrun", "helper")], [FC("inner", 3, ["helper"])]),
+                                      C("k", F("helper", 4), FC("outer", 5, [("ifrun", "this.helper")], [F("inner", 6), N("predicate", "pp", 7)]),
+                                        L("tpl", 8, [("ifrun", "this.helper")], [F("made", 9)]), FC("user", 10, [("lazy", "this.tpl"), "this.helper"]))]),
     ("lazy-with-forms", [C("lib", L("tpl", 1, [("with", "this.helper"), ("exec", "this.helper")]), F("helper", 2)), C("game", F("helper", 3), FC("run", 4, [("lazy", "lib.tpl")]))]),
 ]
 
@@ -1031,6 +1041,80 @@ def generated_name_failure(case, res):
                     note="the lines the generator writes to this file are gone although the compile was accepted")
     return None
 
+# ------------------------------------------------------------------ (round 3) definitions generated by Hardcode.repeat / repeatList
+# `Hardcode.repeat((i)=>{ function gen_$i() {..} new predicate(p_$i) {..} }, start=a, stop=b)` declares one function / json per index,
+# in the load statements, in a function, in a class member (class prefix).  Every copy carries its own marker (`Q<base>$iQ`).  Oracle:
+# a copy that lands on the path of another definition (a user function, a copy of a second repeat) => refused; otherwise every
+# marker exactly once, in the file documented for the generated name.
+def hardcode_cases(rng, tier):
+    cases = []
+    n = 40 if tier == "quick" else 400
+    for k in range(n):
+        ctx = rng.choice(["load", "func", "class", "nested-class"])
+        a = rng.randint(0, 3)
+        b = a + rng.randint(1, 4)
+        base = 100 + k
+        classes = {"load": [], "func": [], "class": ["Kit"], "nested-class": ["kit", "Sub.x"]}[ctx]
+        prefix = "".join(c.lower().replace(".", "/") + "/" for c in classes)
+        kind = rng.choice(["func", "func", "json", "both", "list"])
+        body, exp = "", {}
+        if kind in ("func", "both"):
+            body += f'function gen_$i() {{ say "Q{base}x$iQ"; }} '
+            for i in range(a, b):
+                exp[f"Q{base}x{i}Q"] = f"VIRTUAL/data/TEST/function/{prefix}gen_{i}.mcfunction"
+        if kind in ("json", "both"):
+            body += f'new predicate(p_$i) {{"m": "Q{base}y$iQ"}} '
+            for i in range(a, b):
+                exp[f"Q{base}y{i}Q"] = f"VIRTUAL/data/TEST/predicate/p_{i}.json"          # (`new` inside a function body: no class prefix)
+        if kind == "list":
+            names = rng.sample(["red", "blue", "green", "gold"], rng.randint(1, 3))
+            stmt = (f'Hardcode.repeatList((i, s)=>{{ function col_$s() {{ say "Q{base}z$iQ"; }} }}, strings=[' + ", ".join(f'"{x}"' for x in names) + "]);")
+            for i, x in enumerate(names):
+                exp[f"Q{base}z{i}Q"] = f"VIRTUAL/data/TEST/function/{prefix}col_{x}.mcfunction"
+        else:
+            stmt = f"Hardcode.repeat((i)=>{{ {body}}}, start={a}, stop={b});"
+        collide = None
+        extra = ""
+        x = rng.random()
+        if x < 0.3 and kind in ("func", "both"):
+            j = rng.randint(a - 1, b)          # a user definition at (or just beside) a generated name
+            path = f"{prefix}gen_{j}"
+            extra = f'function {path.replace("/", ".")}() {{ say "Q{base}uQ"; }}'
+            exp[f"Q{base}uQ"] = f"VIRTUAL/data/TEST/function/{path}.mcfunction"
+            collide = a <= j < b
+        elif x < 0.45 and kind in ("func", "both"):
+            a2 = rng.randint(max(0, a - 2), b + 1)
+            b2 = a2 + rng.randint(1, 2)
+            extra = f'function other{k}() {{ Hardcode.repeat((i)=>{{ function {prefix.replace("/", ".")}gen_$i() {{ say "Q{base}w$iQ"; }} }}, start={a2}, stop={b2}); }}'
+            for i in range(a2, b2):
+                exp[f"Q{base}w{i}Q"] = f"VIRTUAL/data/TEST/function/{prefix}gen_{i}.mcfunction"
+            collide = any(a <= i < b for i in range(a2, b2))
+        inner = stmt if ctx == "load" else f"function holder() {{ {stmt} }}"
+        for c in reversed(classes):
+            inner = f"class {c} {{ {inner} }}"
+        src = "\n".join(p for p in ((extra, inner) if rng.random() < 0.5 else (inner, extra)) if p)
+        cases.append(dict(origin=f"hardcode:{ctx}:{kind}:{k}", expect=exp, collide=collide,
+                          job=dict(src=src, cert=CERT, pack_format=48, namespace="TEST")))
+    return cases
+
+
+def hardcode_failure(case, res):
+    if not res["ok"]:
+        if not res.get("jmc") and res.get("exc") != "Timeout":
+            return dict(kind="internal-error", exc=res["exc"], msg=res["msg"][:300], frame=res.get("frame"))
+        if case["collide"] is False and "Duplicate" in (res.get("msg") or ""):
+            return dict(kind="distinct-definitions-refused", msg=res["msg"][:300])
+        return None
+    if case["collide"]:
+        return dict(kind="equal-paths-both-accepted", note="a generated definition and another definition share a path and the compile was accepted",
+                    expected_files=case["expect"])
+    for text, f in case["expect"].items():
+        where = [p for p, c in res["files"].items() for _ in range(c.count(text))]
+        if where != [f]:
+            return dict(kind="definition-lost-or-duplicated" if len(where) != 1 else "definition-misplaced", marker=text, expected=f, actual=where)
+    return None
+
+
 CONFIGS = [
     dict(ns="TEST", pack_format=-1, overrides=[]),
     dict(ns="mypack", pack_format=61, overrides=["minecraft"]),
@@ -1130,11 +1214,15 @@ FINDINGS = {
     "nested": ("C08-nested-function-overwrite", "`function a() { function a() {…} }`: the inner definition is silently replaced (parse_func inserts after the body without re-checking)"),
     "privjson": ("C08-private-json-overwrite", "user json under <type>/__private__/… is accepted and silently replaced by a built-in's add_private_json (KeyError in the other order)"),
     "gendup": ("C08-generated-json-overwrite", "`new predicate(foo)` vs Predicate.locations(\"foo\", …): add_json silently replaces the user json (KeyError in the other order)"),
+    "pendingif": ("C08-pending-if-before-nested-declaration", "an `if` without `else` directly followed by a nested function declaration is emitted into the nested "
+                  "function's file instead of the enclosing function (FuncContent.parse_self_command returns before the pending if-chain is closed)"),
     "ownns": ("C08-own-namespace-override", "with `#override <own namespace>`, `function foo` and `function <ns>.foo` are written to the same file"),
 }
 
 
 FLAG_ORDER = ["strict", "nested", "privjson", "gendup"]
+# an `if (...) { one command }` directly followed by a (decorated) function declaration
+PENDING_IF = re.compile(r"if \([^\n]*\) \{[^{}\n]*\}\s*\n\s*(@\w+(\([^)\n]*\))?\s+)?function ")
 
 
 def classify_all(failing, consts, flags, pre):
@@ -1180,11 +1268,17 @@ def main(tier: str) -> int:
         "on every run; tied to the repo by comparing verdict (exception class) and the file of every marker on generated definition sets",
         "which of the four repairs (fixes/C07-reject-empty-path-segment.patch, fixes/C08-duplicate-definitions.patch) the tree contains is "
         "detected by four witness programs; the model is run with the matching flags, a pinned (defective) behaviour is reported as a finding",
-        "outside the model: @lazy/@if (no file); @add/@private/@root at top level and in classes are placed like plain functions (checked: the "
+        "@lazy / @if functions: the model has no template store; the harness (LazyView) replaces every call of a lazy function by `IAt <prefix "
+        "of the class the lazy function is WRITTEN in> <definitions its body declares>` and the tie checks verdict and placement of the result; "
+        "expected call lines of an expansion (`this.` = the lazy function's class) and the number of expansions are plain-Python oracles",
+        "@add/@private/@root at top level and in classes are placed like plain functions (checked: the "
         "model is given the undecorated item) but a decorated function declared INSIDE a function body is parsed without the class prefix and is "
         "not generated; the zero-command bodies and call forms of round 2 are judged by plain-Python oracles (file exists, references resolve, "
-        "@add call present, equal paths rejected) in addition to the model's placement; imports, "
-        "Hardcode.repeat-generated definitions, jmc.txt names other than the defaults, non-ASCII names",
+        "@add call present, equal paths rejected) in addition to the model's placement; imports, non-ASCII names",
+        "user definitions at compiler-generated names (every built-in probe of harness/c07.py x every file it makes the compiler write, two jmc.txt "
+        "name sets) and Hardcode.repeat / repeatList-generated definitions are judged by plain-Python oracles only (refused, or marker once and the "
+        "generated content kept); the machine-checked counterpart is C08_build_keeps_stored_functions / C08_tick_generated_and_user_coexist on "
+        "Model/Alloc.v, which property C07's trace replay ties to the repo (not re-tied here)",
         "marker counting on the real output is the direct oracle (search); it is plain Python",
     ]
     ck.proof(extra_targets=["Run/C08.vo"])
@@ -1313,6 +1407,9 @@ def main(tier: str) -> int:
         fail = c["fail"]
         cls = classes.get(i) if codes.get(i) == 0 else None
         fid = FINDINGS[cls][0] if cls else None
+        if fid is None and fail["kind"] == "call-site-misdirected" and PENDING_IF.search(c["job"]["src"]) and all(
+                len(x["actual"]) < len(x["expected"]) for x in fail["sites"]):
+            cls, fid = "pendingif", FINDINGS["pendingif"][0]
         if fid and fid in listed:
             ck.known(fid, listed[fid]["what"])
             continue
@@ -1321,7 +1418,7 @@ def main(tier: str) -> int:
             continue
         reported.add(key)
         ck.violation(dict(kind=fail["kind"], failure=fail, program=c["job"]["src"], header=c["job"]["header"], namespace=c["cfg"]["ns"],
-                          pack_format=c["cfg"]["pack_format"], origin=c["origin"], candidate_finding=fid,
+                          pack_format=c["cfg"]["pack_format"], names=c["cfg"].get("names"), origin=c["origin"], candidate_finding=fid,
                           finding_text=FINDINGS[cls][1] if cls else None,
                           model_agrees_with_real=codes.get(i) == 0, job=c["job"], prog=c["prog"],
                           expected="compilation fails with a diagnostic, or every definition's marker (file name for a zero-command body) occurs exactly once, "
@@ -1370,6 +1467,25 @@ def main(tier: str) -> int:
                                        "once and everything the generator wrote to that file is still there (never silently replaced)",
                               actual=gf))
     gcov["verdicts"] = g_verdicts
+    # ---- (round 3) definitions generated by Hardcode.repeat / repeatList
+    hcases = hardcode_cases(rng, tier)
+    hres = compile_batch([h["job"] for h in hcases], chunk=80)
+    h_verdicts = {}
+    for h, r in zip(hcases, hres):
+        v = ("ok" if r["ok"] else r["exc"]) + ("/colliding" if h["collide"] else "")
+        h_verdicts[v] = h_verdicts.get(v, 0) + 1
+        hf = hardcode_failure(h, r)
+        if hf:
+            n_fail += 1
+            key = ("hardcode", hf["kind"])
+            if key in reported:
+                continue
+            reported.add(key)
+            ck.violation(dict(kind=hf["kind"], failure=hf, program=h["job"]["src"], header=None, namespace="TEST", pack_format=48, origin=h["origin"],
+                              job=h["job"], hardcode_case=dict(expect=h["expect"], collide=h["collide"]),
+                              expected="every definition generated by Hardcode.repeat / repeatList is in the output exactly once, at the file documented for its "
+                                       "generated name (class prefix of the enclosing member); a copy on the path of another definition is refused",
+                              actual=hf))
 
     def size(items):
         return sum(1 + (size(it[3]) if it[0] in ("func", "lazy") else size(it[2]) if it[0] == "class" else 0) for it in items)
@@ -1379,7 +1495,7 @@ def main(tier: str) -> int:
         rule="a case = one definition tree x configuration (namespace, pack format, #override set); non-trivial = at least two definitions",
         programs=len(cases), table_cases=sum(1 for c in cases if c["origin"].startswith("table:")), random_cases=n_rand,
         random_decorated_cases=n_rand2, type_sweep_cases=len(set(sweep)), random_lazy_cases=n_lazy,
-        lazy=lazy_coverage(cases), generated_names=gcov,
+        lazy=lazy_coverage(cases), generated_names=gcov, hardcode_generated=dict(cases=len(hcases), verdicts=h_verdicts),
         zero_command_definitions=sum(1 for c in cases for _, _, o in documented_functions(c["prog"]) if o.get("body", "marker") != "marker"),
         decorated_definitions=sum(1 for c in cases for _, _, o in documented_functions(c["prog"]) if o.get("deco")),
         call_forms={f: sum(1 for c in cases if f'"{f}"' in json.dumps(c["prog"])) for f in ("sched", "exec", "with")},
@@ -1400,6 +1516,11 @@ def replay(path: str) -> int:
     r = compile_batch([job])[0]
     print("program:\n" + job["src"])
     print("expected:", rep.get("expected"))
+    if rep.get("gen_case") or rep.get("hardcode_case"):
+        f = (generated_name_failure(dict(rep["gen_case"]), r) if rep.get("gen_case")
+             else hardcode_failure(dict(rep["hardcode_case"]), r))
+        print("actual:", json.dumps(f, indent=1) if f else ("refused with " + r["exc"] if not r["ok"] else "no failure"))
+        return 1 if f else 0
     if not r["ok"]:
         print("actual: compile fails with", r["exc"], "(diagnostic)" if r.get("jmc") else "(INTERNAL ERROR)")
         return 0 if r.get("jmc") else 1
@@ -1412,9 +1533,10 @@ def replay(path: str) -> int:
     bad = [mk for mk in markers_of(_tuplify(prog)) if len(cnt.get(mk, [])) != 1] if prog else []
     more = []
     if prog:
-        cfg = dict(ns=rep.get("namespace", "TEST"), pack_format=rep.get("pack_format", -1),
+        cfg = dict(ns=rep.get("namespace", "TEST"), pack_format=rep.get("pack_format", -1), names=rep.get("names"),
                    overrides=re.findall(r"#override[ \t]+(\S+)", rep.get("header") or ""))
-        more = call_site_failures(_tuplify(prog), cfg, r) + reference_failures(_tuplify(prog), cfg, r)
+        tp = _tuplify(prog)
+        more = call_site_failures(tp, cfg, r) + reference_failures(tp, cfg, r) + lazy_text_failures(tp, r)
         print("actual: call sites / references:", json.dumps(more[:4], indent=1) if more else "all resolve to the documented files")
     return 1 if bad or more else 0
 
@@ -1423,10 +1545,12 @@ def _tuplify(items):
     out = []
     for it in items:
         it = list(it)
-        if it[0] == "func":
+        if it[0] in ("func", "lazy"):
             it[3] = _tuplify(it[3])
             if len(it) > 4:
                 it[4] = [c if isinstance(c, str) else tuple(c) for c in it[4]]
+        elif it[0] == "load":
+            it[2] = [c if isinstance(c, str) else tuple(c) for c in it[2]]
         elif it[0] == "class":
             it[2] = _tuplify(it[2])
         out.append(tuple(it))
